@@ -324,7 +324,8 @@ fn tracker_route(r: &mut Report, s: &Scn, exp_unused: &[Expect]) {
 pub fn scenarios(thorough: bool) -> Vec<Scn> {
     let mut v = vec![];
     let dts: Vec<u64> = if thorough { vec![25, 26, 50, 100, 250, 500, 1000, 1500, 2000, 3000, 5000, 7500, 10_000, 30_000, 60_000, 120_000, 300_000, 599_999, 600_000] } else { vec![1000, 2000, 10_000, 60_000, 600_000] };
-    let origins: Vec<u32> = if thorough { vec![1, 1_000_000, 0x7fff_fffd, u32::MAX - 3] } else { vec![1_000_000, u32::MAX - 3] };
+    // (0: a clock whose first reading is exactly zero is a clock like any other)
+    let origins: Vec<u32> = if thorough { vec![0, 1, 1_000_000, 0x7fff_fffd, u32::MAX - 3] } else { vec![0, 1_000_000, u32::MAX - 3] };
     // (1) every integer rate x interval x role route x ts origin (incl. wrap through 2^32) ; third segment at the same steady rate
     for rate in 1..=1500u64 {
         for &dt in &dts {
@@ -423,6 +424,20 @@ pub fn scenarios(thorough: bool) -> Vec<Scn> {
             v.push(Scn { v6: false, pa: 40000, pb: 80, segs, unified: false });
         }
     }
+    // a clock that wraps exactly onto 0 in the later segment, and one that starts at 0 (every role route)
+    for (ts0, ticks, dt) in [(0u32.wrapping_sub(1000), 1000u32, 1000u64), (0u32.wrapping_sub(250), 250, 1000), (0, 100, 1000), (0, 1000, 1000)] {
+        for route in 0..4 {
+            let (from_a, f0) = match route {
+                0 => (true, SYN),
+                1 => (false, SYN | ACK),
+                2 => (true, ACK | PSH),
+                _ => (false, ACK | PSH),
+            };
+            for v6 in [false, true] {
+                v.push(Scn { v6, pa: 40000, pb: 80, unified: route == 0, segs: vec![Seg { from_a, flags: f0, at_ms: T0, tsval: ts0 }, Seg { from_a, flags: ACK | PSH, at_ms: T0 + dt, tsval: ts0.wrapping_add(ticks) }, Seg { from_a, flags: ACK, at_ms: T0 + 2 * dt, tsval: ts0.wrapping_add(2 * ticks) }] });
+            }
+        }
+    }
     v.extend(clock_step_scenarios());
     v
 }
@@ -515,7 +530,7 @@ pub fn run(thorough: bool) -> Outcome {
     marker_outlives_short_waits(&mut report);
     Outcome {
         report,
-        rule: "histories of 2-4 timestamped segments under the injected clock: every integer rate 1..1500 Hz x intervals x 4 role routes x timestamp origin (incl. wrap through 2^32) x IPv4/IPv6; interval/rate boundaries with follow-up segments; port heuristic over {80,1024,1025,50000}^2; both directions interleaved; backward movement; a rejected endpoint stays silent after 120 ms of real waiting (its entry lives 30 s of real time; both roles, IPv4 / IPv6); wall clock stepping backwards or jumping between the segments (14 x 4 offsets, retransmitted SYN / SYN+ACK and data); every single-endpoint history also through calculate_uptime_improved + UptimeTracker (same bounds, grid and decomposition; silent after a rejected pair, frequency kept after an accepted one); distinct = distinct per-packet (client,server) frequency report vectors".into(),
+        rule: "histories of 2-4 timestamped segments under the injected clock: every integer rate 1..1500 Hz x intervals x 4 role routes x timestamp origin (incl. 0, wrap through 2^32 and wrap exactly onto 0) x IPv4/IPv6; interval/rate boundaries with follow-up segments; port heuristic over {80,1024,1025,50000}^2; both directions interleaved; backward movement; a rejected endpoint stays silent after 120 ms of real waiting (its entry lives 30 s of real time; both roles, IPv4 / IPv6); wall clock stepping backwards or jumping between the segments (14 x 4 offsets, retransmitted SYN / SYN+ACK and data); every single-endpoint history also through calculate_uptime_improved + UptimeTracker (same bounds, grid and decomposition; silent after a rejected pair, frequency kept after an accepted one); distinct = distinct per-packet (client,server) frequency report vectors".into(),
         exhaustive: true,
         bounds: json!({"scenarios": sc.len(), "max_segments": 4}),
     }
